@@ -284,4 +284,249 @@ theorem windows_runsFirst (p : Params) (hp : 0 < p.period) :
         · exact hr
         · exact hnext w hw
 
+/-! ### windows in time: at most `limit` runs per `period` when the ban is not shorter than the period -/
+
+/-- the windows follow each other in time: inside a window every call is at or after the first one and
+    strictly before the window's lapse; every call of every later window is at or after that lapse -/
+def Chrono (period ttl : Nat) : List (List Ev) → Prop
+  | [] => True
+  | w :: rest =>
+    (∀ e0, w.head? = some e0 → ∀ e ∈ w, e0.ts ≤ e.ts) ∧ (∀ e ∈ w, e.ts < lapseOf period ttl w) ∧
+    (∀ w' ∈ rest, ∀ e ∈ w', lapseOf period ttl w ≤ e.ts) ∧ Chrono period ttl rest
+
+theorem runsIn_append (a b : List Ev) (t len : Nat) : runsIn (a ++ b) t len = runsIn a t len + runsIn b t len := by
+  simp [runsIn, List.countP_append]
+
+theorem runsIn_eq_zero {l : List Ev} {t len : Nat} (h : ∀ e ∈ l, e.ts < t ∨ t + len ≤ e.ts) : runsIn l t len = 0 := by
+  unfold runsIn
+  rw [List.countP_eq_zero]
+  intro e he
+  have := h e he
+  simp; omega
+
+theorem runsIn_le_countP (l : List Ev) (t len : Nat) : runsIn l t len ≤ l.countP (·.ran) := by
+  unfold runsIn
+  apply List.countP_mono_left
+  intro e _ h
+  simp at h
+  exact h.1.1
+
+/-- a window lasts at least `period` when the ban is not shorter than the period -/
+theorem lapse_ge (period ttl : Nat) (h : period ≤ ttl) (w : List Ev) (e0 : Ev) (hh : w.head? = some e0)
+    (hmono : ∀ e ∈ w, e0.ts ≤ e.ts) : e0.ts + period ≤ lapseOf period ttl w := by
+  unfold lapseOf
+  cases hr : firstRejection w with
+  | none => simp [hh]
+  | some r =>
+    have : r ∈ w := List.mem_of_find?_eq_some hr
+    have := hmono r this
+    simp; omega
+
+theorem chrono_count (limit period ttl : Nat) (httl : period ≤ ttl) :
+    ∀ ws : List (List Ev), Chrono period ttl ws → (∀ w ∈ ws, w.countP (·.ran) ≤ limit) →
+      ∀ w ∈ ws, ∀ e0, w.head? = some e0 → runsIn ws.flatten e0.ts period ≤ limit := by
+  intro ws
+  induction ws with
+  | nil => intro _ _ w hw; simp at hw
+  | cons w0 rest ih =>
+    intro hc hcnt w hw e0 he0
+    obtain ⟨h1, h2, h3, h4⟩ := hc
+    rw [List.flatten_cons, runsIn_append]
+    rcases List.mem_cons.mp hw with rfl | hw
+    · have hl := lapse_ge period ttl httl w e0 he0 (h1 e0 he0)
+      have hz : runsIn rest.flatten e0.ts period = 0 := by
+        apply runsIn_eq_zero
+        intro e he
+        obtain ⟨w', hw', hew'⟩ := List.mem_flatten.mp he
+        have := h3 w' hw' e hew'
+        omega
+      have := runsIn_le_countP w e0.ts period
+      have := hcnt w (by simp)
+      omega
+    · have he0w : e0 ∈ w := List.mem_of_mem_head? he0
+      have hz : runsIn w0 e0.ts period = 0 := by
+        apply runsIn_eq_zero
+        intro e he
+        have := h2 e he
+        have := h3 w hw e0 he0w
+        omega
+      have := ih h4 (fun w' hw' => hcnt w' (by simp [hw'])) w hw e0 he0
+      omega
+
+theorem incr_now (t : TtlMap) (k : Nat) (b : Int) (ttl : Option Nat) : (t.incr k b ttl).1.now = t.now := by
+  simp only [TtlMap.incr]
+  cases t.find k with
+  | none => rfl
+  | some e =>
+    simp only []
+    cases e.val.toInt? <;> rfl
+
+theorem expire_now (t : TtlMap) (k : Nat) (ttl : Option Nat) : (t.step (.expire k ttl)).1.now = t.now := by
+  simp only [TtlMap.step]
+  split <;> rfl
+
+/-- whatever the counter holds, a call is stamped `t.now + dt` and leaves the clock there -/
+theorem call_ts_now (p : Params) (t : TtlMap) (dt : Nat) :
+    (call p t dt).2.ts = t.now + dt ∧ (call p t dt).1.now = t.now + dt := by
+  have hin : ((t.step (.adv dt)).1.step (.incr key 1 (some p.period))).1.now = t.now + dt := incr_now _ _ _ _
+  simp only [call]
+  generalize (t.step (.adv dt)).1.step (.incr key 1 (some p.period)) = r at hin
+  obtain ⟨t1, o⟩ := r
+  simp only at hin
+  cases o with
+  | int n =>
+    simp only []
+    by_cases hr : rejects p n = true
+    · by_cases hb : bans p n = true
+      · simp only [hr, hb, if_true]
+        exact ⟨rfl, by rw [expire_now]; exact hin⟩
+      · simp only [hr, hb, if_true, if_false, Bool.false_eq_true]
+        exact ⟨rfl, hin⟩
+    · simp only [hr, if_false, Bool.false_eq_true]
+      exact ⟨rfl, hin⟩
+  | unit => exact ⟨rfl, hin⟩
+  | bool b => exact ⟨rfl, hin⟩
+  | val v => exact ⟨rfl, hin⟩
+  | vals vs => exact ⟨rfl, hin⟩
+  | err => exact ⟨rfl, hin⟩
+
+theorem run_ts_ge (p : Params) : ∀ (calls : List Nat) (t : TtlMap), ∀ e ∈ run p t calls, t.now ≤ e.ts := by
+  intro calls
+  induction calls with
+  | nil => intro t e he; simp [run] at he
+  | cons dt rest ih =>
+    intro t e he
+    simp only [run] at he
+    obtain ⟨h1, h2⟩ := call_ts_now p t dt
+    rcases List.mem_cons.mp he with rfl | he
+    · omega
+    · have := ih _ e he
+      omega
+
+theorem mem_windows (period ttl : Nat) : ∀ (evs cur : List Ev), ∀ w ∈ windows period ttl cur evs, ∀ e ∈ w, e ∈ cur ∨ e ∈ evs := by
+  intro evs
+  induction evs with
+  | nil =>
+    intro cur w hw e he
+    unfold windows at hw
+    split at hw
+    · simp at hw
+    · simp at hw; subst hw; exact .inl he
+  | cons x rest ih =>
+    intro cur w hw e he
+    unfold windows at hw
+    split at hw
+    · rcases ih _ w hw e he with h | h
+      · rcases List.mem_append.mp h with h | h
+        · exact .inl h
+        · simp at h; subst h; exact .inr (by simp)
+      · exact .inr (by simp [h])
+    · split at hw
+      · rcases ih _ w hw e he with h | h
+        · simp at h; subst h; exact .inr (by simp)
+        · exact .inr (by simp [h])
+      · rcases List.mem_cons.mp hw with rfl | hw
+        · exact .inl he
+        · rcases ih _ w hw e he with h | h
+          · simp at h; subst h; exact .inr (by simp)
+          · exact .inr (by simp [h])
+
+/-- the window in progress is in order, not ahead of the clock, and all of it is before its lapse -/
+def CurOK (p : Params) (t : TtlMap) (cur : List Ev) : Prop :=
+  (∀ e0, cur.head? = some e0 → ∀ e ∈ cur, e0.ts ≤ e.ts) ∧ (∀ e ∈ cur, e.ts ≤ t.now) ∧
+  (∀ e ∈ cur, e.ts < lapseOf p.period p.effTtl cur)
+
+theorem windows_chrono (p : Params) (hp : 0 < p.period) :
+    ∀ (calls : List Nat) (t : TtlMap) (cur : List Ev), Cell p t cur → RunsFirst p.limit cur → CurOK p t cur →
+      Chrono p.period p.effTtl (windows p.period p.effTtl cur (run p t calls)) := by
+  have he := effTtl_pos p hp
+  intro calls
+  induction calls with
+  | nil =>
+    intro t cur _ _ hok
+    simp only [run, windows]
+    split
+    · trivial
+    · exact ⟨hok.1, hok.2.2, by simp, trivial⟩
+  | cons dt rest ih =>
+    intro t cur hc hr hok
+    simp only [run]
+    obtain ⟨hts, hnow⟩ := call_ts_now p t dt
+    by_cases hlive : cur ≠ [] ∧ t.now + dt < lapseOf p.period p.effTtl cur
+    · obtain ⟨hne, hl⟩ := hlive
+      have hpos : 0 < cur.length := List.length_pos_iff.mpr hne
+      obtain ⟨h1, h2, h3⟩ := call_live p hp t dt cur.length _ hpos (hc.2 hne) hl
+      have hev : (call p t dt).2.dec = if cur.length < p.limit then .run else .reject := by rw [h1]
+      have hcond : (!cur.isEmpty && decide ((call p t dt).2.ts < lapseOf p.period p.effTtl cur)) = true := by
+        simp [hts, hl, hne]
+      rw [windows, hcond, if_pos rfl]
+      have hlapse := lapseOf_append_live p.period p.effTtl hne hr _ hev
+      refine ih _ _ ⟨fun h => by simp at h, fun _ => ?_⟩ (runsFirst_append hr _ hev) ⟨?_, ?_, ?_⟩
+      · rw [h3, hlapse, hts]; simp
+      · intro e0 he0 e hmem
+        have he0' : cur.head? = some e0 := by
+          cases cur with
+          | nil => exact absurd rfl hne
+          | cons a r => simpa using he0
+        rcases List.mem_append.mp hmem with hm | hm
+        · exact hok.1 e0 he0' e hm
+        · simp at hm; subst hm
+          have := hok.2.1 e0 (List.mem_of_mem_head? he0')
+          omega
+      · intro e hmem
+        rw [hnow]
+        rcases List.mem_append.mp hmem with hm | hm
+        · have := hok.2.1 e hm; omega
+        · simp at hm; subst hm; omega
+      · intro e hmem
+        rw [hlapse]
+        rcases List.mem_append.mp hmem with hm | hm
+        · split
+          · have := hok.2.1 e hm; omega
+          · exact hok.2.2 e hm
+        · simp at hm; subst hm
+          split <;> omega
+    · obtain ⟨h1, h2, h3⟩ := call_dead p hp t dt (by
+        by_cases hne : cur = []
+        · exact TtlMap.find_none (by rw [TtlMap.adv_m]; exact hc.1 hne)
+        · have : ¬ t.now + dt < lapseOf p.period p.effTtl cur := fun h => hlive ⟨hne, h⟩
+          exact TtlMap.find_dead (by rw [TtlMap.adv_m]; exact hc.2 hne) (by rw [TtlMap.adv_now]; exact decide_eq_false this))
+      have hev : (call p t dt).2.dec = if 0 < p.limit then .run else .reject := by rw [h1]
+      have hcond : (!cur.isEmpty && decide ((call p t dt).2.ts < lapseOf p.period p.effTtl cur)) = false := by
+        by_cases hne : cur = []
+        · simp [hne]
+        · have : ¬ t.now + dt < lapseOf p.period p.effTtl cur := fun h => hlive ⟨hne, h⟩
+          simp [hts, this]
+      have hran : (call p t dt).2.ran = decide (0 < p.limit) := by
+        simp only [Ev.ran, hev]
+        by_cases h0 : 0 < p.limit <;> simp [h0]
+      have hnext : Chrono p.period p.effTtl (windows p.period p.effTtl [(call p t dt).2] (run p (call p t dt).1 rest)) := by
+        refine ih _ _ ⟨fun h => by simp at h, fun _ => ?_⟩ (runsFirst_single _ _ hev) ⟨?_, ?_, ?_⟩
+        · rw [h3, lapseOf_single, hts]
+          by_cases h0 : 0 < p.limit <;> simp [hran, h0]
+        · intro e0 he0 e hmem
+          simp at he0 hmem
+          subst he0; subst hmem; omega
+        · intro e hmem
+          simp at hmem; subst hmem; omega
+        · intro e hmem
+          simp at hmem; subst hmem
+          rw [lapseOf_single]
+          split <;> omega
+      rw [windows, hcond]
+      simp only [Bool.false_eq_true, if_false]
+      split
+      · exact hnext
+      · rename_i hne
+        have hne' : cur ≠ [] := by simpa [List.isEmpty_iff] using hne
+        have hdead : lapseOf p.period p.effTtl cur ≤ t.now + dt := by
+          have : ¬ t.now + dt < lapseOf p.period p.effTtl cur := fun h => hlive ⟨hne', h⟩
+          omega
+        refine ⟨hok.1, hok.2.2, ?_, hnext⟩
+        intro w' hw' e hmem
+        rcases mem_windows _ _ _ _ w' hw' e hmem with hm | hm
+        · simp at hm; subst hm; omega
+        · have := run_ts_ge p rest _ e hm
+          omega
+
 end CashewsVerif.Decor.Rate
